@@ -486,22 +486,67 @@ func (s *c45St) authorised(ev *c45Ev) bool {
 	return false
 }
 
-// wclass names what the witness set is relative to the target (for violation keys).
+// wclass names what the witness set is relative to the target (or, for the
+// controller / recovery families, to the member identities) — for violation keys.
+var c45ownerOf = map[string]string{"k1": "X", "k2": "X", "k3": "X", "a1": "A", "a2": "A", "b1": "B"}
+
+func c45flatten(g *c45Grp, out []string) []string {
+	for _, m := range g.members {
+		switch t := m.(type) {
+		case string:
+			out = append(out, t)
+		case *c45Grp:
+			out = c45flatten(t, out)
+		}
+	}
+	return out
+}
+
 func (s *c45St) wclass(ev *c45Ev) string {
 	if len(ev.w) == 0 {
 		return "no-witness"
 	}
 	inf := s.info[ev.target]
-	own := map[string]bool{"k1": ev.target == "X", "k2": ev.target == "X", "k3": ev.target == "X", "a1": ev.target == "A", "a2": ev.target == "A", "b1": ev.target == "B"}
-	c := "foreign-signers"
-	for _, p := range ev.w {
-		a := s.f.addr[p]
-		if inf.listed[a] && !inf.auth[a] {
-			return "key-without-authentication"
+	var ids []string // identities whose keys count for this family
+	switch ev.fam {
+	case c45famCtrl:
+		switch c := inf.ctrl.(type) {
+		case string:
+			ids = []string{s.f.idName[c]}
+		case *c45Grp:
+			for _, d := range c45flatten(c, nil) {
+				ids = append(ids, s.f.idName[d])
+			}
 		}
-		if own[p] && !inf.listed[a] {
-			c = "revoked-or-unlisted-key"
+	case c45famRec:
+		if inf.rec != nil {
+			for _, d := range c45flatten(inf.rec, nil) {
+				ids = append(ids, s.f.idName[d])
+			}
 		}
+	default:
+		ids = []string{ev.target}
+	}
+	c, some := "foreign-signers", false
+	for _, n := range ids {
+		mi := s.info[n]
+		if mi == nil {
+			continue
+		}
+		for _, p := range ev.w {
+			a := s.f.addr[p]
+			switch {
+			case mi.auth[a]:
+				some = true
+			case mi.listed[a]:
+				return "key-without-authentication"
+			case c45ownerOf[p] == n:
+				c = "revoked-or-unlisted-key"
+			}
+		}
+	}
+	if some && c == "foreign-signers" {
+		c = "below-group-threshold"
 	}
 	return c
 }
@@ -872,6 +917,10 @@ func (f *c45fx) buildAlphabet(thorough bool) {
 			addOp(f.ev(m.q && p != "a1", m.method, "X", m.fam, m.desc+",op="+p, m.mk(f.pk[p]), []string{p}))
 		}
 		addOp(f.ev(m.q, m.method, "X", m.fam, m.desc+",op=addr(r)", m.mk(ra[:]), []string{"r"}))
+		// the other spelling of each operator: the recovery account named by public key, an own key named by address
+		k1a := f.addr["k1"]
+		addOp(f.ev(false, m.method, "X", m.fam, m.desc+",op=pk(r)", m.mk(f.pk["r"]), []string{"r"}))
+		addOp(f.ev(false, m.method, "X", m.fam, m.desc+",op=addr(k1)", m.mk(k1a[:]), []string{"k1"}))
 		addOp(f.ev(false, m.method, "X", m.fam, m.desc+",op=k1", m.mk(f.pk["k1"]), others))
 	}
 	// changeRecovery: operator must be the legacy recovery address
@@ -1034,6 +1083,9 @@ func (f *c45fx) buildRoots(thorough bool) {
 		{"regWithAttributes", true, []string{"regIDWithAttributes(X,k1,[p])/W={k1}"}},
 		// the controlling identity A rotated its key: a1 revoked, a2 in use
 		{"ctrlA-a1rotated", true, []string{regA, rotA1, rotA2}},
+		// ... or withdrew the authentication right of a1
+		{"ctrlA-a1noauth", true, []string{regA, rotA1, "removeAuthKey(A,#1,signer#2)/W={a2}"}},
+		{"ctrlG-a1noauth", false, []string{regG, rotA1, "removeAuthKey(A,#1,signer#2)/W={a2}"}},
 		{"ctrlG-a1rotated", false, []string{regG, rotA1, rotA2}},
 		{"recG-a1rotated", false, []string{reg1, "setRecovery(X,2of(A,B),signer#1)/W={k1}", rotA1, rotA2}},
 		{"ctrlA-Arevoked", false, []string{regA, "revokeID(A,signer#1)/W={a1}"}},
